@@ -59,7 +59,8 @@ struct blk G; struct vhm M; struct ext E[LP]; struct ext E_other, E_freelist;
 /* ghost */
 _Bool held[NB];                 /* the iterator thread holds the lock of bucket j (set by a successful CAS, cleared by an unlocking store) */
 bstate_t shadow[NB];            /* last state value stored (to see transitions) */
-_Bool unlink_pending[NB]; uint64_t lock_clock[NB], unlock_clock[NB]; unsigned lock_count[NB], unlock_count[NB]; bstate_t unlock_value[NB];
+unsigned char unlink_pending[NB];   /* modification not yet published by a version-changing state store: 0 none, 1 slot refill (key/value), 2 chain link */
+ uint64_t lock_clock[NB], unlock_clock[NB]; unsigned lock_count[NB], unlock_count[NB]; bstate_t unlock_value[NB];
 _Bool mon_hoh;                  /* hand-over-hand checking on (move_to_next_bucket harnesses) */
 _Bool freed[LP]; unsigned free_count; int g_focus;   /* bucket that owns pool E */
 static void xv_free_ext(struct ext* item);
@@ -116,8 +117,14 @@ static void mon_store(void* addr, uint64_t v, int o) {
     shadow[j] = nw;
   } else if (kind == K_KEY || kind == K_VALUE) {
     if (slot < BS_item_count(shadow[j])) XV_OBL("vhm.it.erase.reader_protocol", BS_delete_marker(shadow[j]) == slot + 1);
-  } else if (kind == K_HEAD || kind == K_NEXT) {
+    /* one modification step at a time: a slot refill must not start while a chain change is unpublished */
+    XV_OBL("vhm.it.erase.version_bumped", unlink_pending[j] != 2);
     unlink_pending[j] = 1;
+  } else if (kind == K_HEAD || kind == K_NEXT) {
+    /* ... and a chain link is changed only after the previous step (slot refill under the marker, earlier unlink) was published by a
+     * version bump: a reader that skipped the marked slot and then sees the new chain must find a changed version */
+    XV_OBL("vhm.it.erase.version_bumped", unlink_pending[j] == 0);
+    unlink_pending[j] = 2;
   }
 }
 static void mon_cas(void* addr, uint64_t e, uint64_t d, _Bool ok, int o) {
@@ -135,6 +142,9 @@ static void xv_free_ext(struct ext* item) {
   int i = pool_idx(item);
   XV_OBL("vhm.it.erase.exact", i >= 0 && !freed[i >= 0 ? i : 0]);       /* frees a live pool item, once */
   if (i < 0) return;
+  /* the unlink of the item (and a slot refill in progress) must have been published by a version-changing state store BEFORE the
+   * item is recycled: a reader that still holds the item re-validates the version after following item->next */
+  XV_OBL("vhm.it.erase.version_bumped", g_focus >= 0 && unlink_pending[g_focus] == 0 && BS_delete_marker(shadow[g_focus]) == 0);
   freed[i] = 1; free_count++;
   item->next = &E_freelist;                                              /* free_extension_item relinks the item into its free list */
 }
@@ -407,13 +417,16 @@ void h_erase(void) {
     if (gk != cur_key && og >= 0) XV_OBL("vhm.it.erase.exact", og < (int)in_rank);
     XV_OBL("vhm.it.erase.exact", sp_moved_ok((int)in_cb, &g0, &it) && !BS_is_locked(b->state));
   }
+  /* the lock stays held (no unlocking store) for as long as the iterator stays on the bucket; it is released exactly once otherwise */
+  if (stays) XV_OBL("vhm.it.exclusive", held[in_cb] && unlock_count[in_cb] == 0 && BS_is_locked(b->state));
+  else XV_OBL("vhm.it.exclusive", !held[in_cb] && unlock_count[in_cb] == 1);
   /* version / II */
   uint32_t dv = (BS_version(st1) - v0) & ((1u << (32 - version_shift)) - 1);
   XV_OBL("vhm.it.erase.version_bumped", dv == 1 || dv == 2);
   if (stays) XV_OBL("vhm.it.erase.version_bumped", sp_II(&it, -1));
   else XV_OBL("vhm.it.erase.version_bumped", is_end(&it) || sp_II(&it, -1));
   XV_OBL("vhm.it.erase.version_bumped", BS_item_count(st1) == BS_item_count(cbs0) - (old_head == 0 ? 1u : 0u) && BS_delete_marker(st1) == 0 && !BS_is_locked(st1));
-  XV_OBL("vhm.it.erase.reader_protocol", !unlink_pending[in_cb]);
+  XV_OBL("vhm.it.erase.reader_protocol", unlink_pending[in_cb] == 0);
   if (cur_ext != 0) { if (stays) XV_CANARY("erase.case1_stays"); else XV_CANARY("erase.case1_moves_on"); }
   else if (old_head != 0) XV_CANARY("erase.case2");
   else if (stays) XV_CANARY("erase.case3_stays"); else XV_CANARY("erase.case3_moves_on");
